@@ -282,6 +282,22 @@ def campaign(c):
             c.case(('path', args[0]), None)
     finally:
         shutil.rmtree(d, ignore_errors=True)
+    # (3b) values that a computation maps to a special result: UDP datagrams whose checksum computes to zero (transmitted as all
+    #      ones, RFC 768) on every checksumming path, in both directions, framed and raw, alone and inside a tunnel
+    from .C03 import zero_fold_payload
+    for i in range(10 if c.quick else 150):
+        r = c.rng.fork('zfold%d' % i)
+        cl, sv = (r.below(2 ** 32), r.below(65536)), (r.below(2 ** 32), r.below(65536))
+        pre = r.bytes(2 * r.below(12))
+        from ..netscen import ip as ipf
+        for who, (a, b) in (('client', (cl, sv)), ('server', (sv, cl))):
+            pay = zero_fold_payload(a[0], b[0], a[1], b[1], pre)
+            for call in ('u.%s_dgram("|%s|")', 'u.%s_dgram(csum: true, "|%s|")', 'eth::frame("|000000000001|", "|000000000002|", u.%s_raw_dgram("|%s|"))', 'v.encap(u.%s_dgram("|%s|"))'):
+                src = ('import ipv4;\nimport eth;\nimport vxlan;\nlet u = ipv4::udp::flow(%s:%d, %s:%d%s);\nlet v = vxlan::session(9.9.9.9:9, 8.8.8.8:4789);\n%s;\n'
+                       % (ipf(cl[0]), cl[1], ipf(sv[0]), sv[1], ', raw: true' if i % 2 else '', call % (who, pay.hex()))).encode()
+                impl, model = progdiff.run_both(c, src)
+                judge_cli(c, src, impl, model, 'zero-checksum')
+        c.case(('zfold', i), dict(kind='zero-checksum', payload=pay.hex()) if i % 5 == 0 else None)
     # (4) nesting depth (the native stack is outside the model)
     for depth in ([50, 500, 3000, 20000] if c.quick else [50, 500, 1000, 3000, 8000, 20000, 60000]):
         for shape in ('call', 'slash', 'args'):
